@@ -305,7 +305,7 @@ def cli_rules(ctx):
     R = ctx.report
     repo = ctx.repo
     ev = Evaluator(repo, inline_depth=0)
-    R.rule("C06-D3b CLI file outputs", 6, "each output file receives exactly the matching artifact")
+    R.rule("C06-D3b CLI file outputs", 8, "each output file receives exactly the matching artifact")
     for fname, n_res, resnames in (("encrypt_and_generate", 5, ["encrypted_content", "tag", "encryption_info", "digest", "plaintext_len"]),
                                    ("generate_info", 3, ["encrypted_content", "tag", "encryption_info"])):
         fi = repo.func(CMD, fname)
@@ -326,6 +326,12 @@ def cli_rules(ctx):
             raise AnalysisError(f"{ctx.fq(fi)}: encryptor call not recognised")
         res = {n: App("unpack", (enc_call, Const(i), Const(n_res))) for i, n in enumerate(resnames)}
         fq = ctx.fq(fi)
+        # every artifact file is written on every normal path: no condition (truthiness of a result, state of the output directory)
+        cond_w = [(e, g) for e, g in _effects_with_guards(outs[0].effects) if isinstance(e, App) and e.op in ("eff:write", "eff:open") and g]
+        R.check("C06-D3b CLI file outputs", not cond_w, f"{fname}: every output file is written unconditionally", mod=fi.module,
+                node=cond_w[0][0].node if cond_w and getattr(cond_w[0][0], "node", None) is not None else fi.node, function=fq,
+                expected="the files of one invocation describe the same encryption: none is skipped or left from an earlier run",
+                found=f"write under {[repr(c)[:80] for c, _ in cond_w[0][1]][:2]}" if cond_w else "", key_extra="unconditional")
 
         def chk(fname_, want, mode):
             got = writes.get(fname_)
